@@ -20,6 +20,8 @@ type rcur struct {
 	checkedVars map[string]bool
 	// pendingRec: a nested record was decoded at the cursor and not yet stepped over
 	pendingRec string
+	// pendingType: Go type name of that record
+	pendingType string
 	// perIter is set inside a loop covered by a bulk check: bytes proven per iteration
 }
 
@@ -185,6 +187,20 @@ func (l *Lifter) brBlock(stmts []ast.Stmt, cur *rcur, counts map[string]*countVa
 			continue
 		}
 		if d, ok := l.accStmt(s, "at"); ok {
+			if cur.pendingRec != "" && l.RecClass != nil {
+				// spec: a nested message occupies 4 (length) + length bytes, a nested
+				// union 4 (length) + 1 (discriminator) + length bytes, and a struct
+				// has no length on the wire at all
+				want := map[string]int{"message": 4, "union": 5}
+				cls := l.RecClass(cur.pendingType)
+				if k, ok := want[cls]; ok {
+					if exp := Const(k).Add(Term("wirelen(at)", 1)); d.String() != exp.String() {
+						l.fail("cursor", cur.pendingRec, s.Pos(), "after the nested %s %s the cursor moves by %s; on the wire it occupies %s", cls, cur.pendingRec, d, exp)
+					}
+				} else if cls == "struct" && d.T["wirelen(at)"] != 0 {
+					l.fail("cursor", cur.pendingRec, s.Pos(), "after the nested struct %s the cursor moves by %s, but a struct carries no length prefix", cur.pendingRec, d)
+				}
+			}
 			cur.pendingRec = ""
 			cur.countChecked = false
 			if cur.avail != nil && cur.avail.T["wirelen(at)"] != 0 && d.T["wirelen(at)"] == 0 {
@@ -543,6 +559,7 @@ func (l *Lifter) brAssign(x *ast.AssignStmt, rest []ast.Stmt, cur *rcur, counts 
 				lower := strings.ToLower(base)
 				if strings.HasPrefix(lower, "make") && strings.HasSuffix(base, "FromBytes") {
 					cur.pendingRec = dst
+					cur.pendingType = base[4 : len(base)-len("FromBytes")]
 					return []Item{{Kind: KRec, Operand: dst, Type: base[4 : len(base)-len("FromBytes")], Pos: pos}}, n, true
 				}
 			}
@@ -586,6 +603,7 @@ func (l *Lifter) brAssign(x *ast.AssignStmt, rest []ast.Stmt, cur *rcur, counts 
 						l.fail("unchecked", dst, pos, "the checked decoder calls the unchecked constructor %s", base)
 					}
 					cur.pendingRec = dst
+					cur.pendingType = base[8 : len(base)-len("FromBytes")]
 					return []Item{{Kind: KRec, Operand: dst, Type: base[8 : len(base)-len("FromBytes")], Pos: pos}}, 0, true
 				}
 			}
